@@ -489,8 +489,9 @@ def contracts():
     for t in (0, 2):
         cs += [IndexLookup(t), MaskedLookup(t), ReorderedLookup(t), UniformDerivedLookup(t), DerivedLookup(t)]
     cs += [ChainedLookup(0), ChainedLookup(2), IndexLookupNegative(), IndexLookupForeign(), MaskedForeign(), AxisInverse('unmap-after-map'), AxisInverse('map-after-unmap')]
-    from contracts import c11_chain
+    from contracts import c11_chain, c11_swap
     cs += c11_chain.contracts()
+    cs += c11_swap.contracts()
     return cs
 
 
